@@ -126,10 +126,11 @@ class RasterImage:
             return LazyImage(self._cache, key, data)
 
     def get_x_object(self, interpolate, dpi_ratio):
+        image_data = self.image_data
         if dpi_ratio == 1:
             width, height = self.width, self.height
         else:
-            thumbnail = Image.open(io.BytesIO(self.image_data.data))
+            thumbnail = Image.open(io.BytesIO(image_data.data))
             width = max(1, round(self.width * dpi_ratio))
             height = max(1, round(self.height * dpi_ratio))
             thumbnail.thumbnail((width, height))
@@ -137,7 +138,9 @@ class RasterImage:
             thumbnail.save(
                 image_file, format=thumbnail.format, optimize=self.optimize)
             width, height = thumbnail.width, thumbnail.height
-            self.image_data = self.cache_image_data(image_file.getvalue())
+            # Keep the original image for next uses
+            image_data = self.cache_image_data(
+                image_file.getvalue(), slot=f'thumbnail-{width}x{height}')
 
         if self.mode in ('RGB', 'RGBA'):
             color_space = '/DeviceRGB'
@@ -163,7 +166,7 @@ class RasterImage:
             if self.invert_colors:
                 extra['Decode'] = pydyf.Array((1, 0) * 4)
             extra['Filter'] = '/DCTDecode'
-            return pydyf.Stream([self.image_data], extra)
+            return pydyf.Stream([image_data], extra)
 
         extra['Filter'] = '/FlateDecode'
         extra['DecodeParms'] = pydyf.Dictionary({
@@ -181,13 +184,14 @@ class RasterImage:
             extra['DecodeParms']['Colors'] = 3
         if self.mode in ('RGBA', 'LA'):
             # Remove alpha channel from image
-            pillow_image = Image.open(io.BytesIO(self.image_data.data))
+            pillow_image = Image.open(io.BytesIO(image_data.data))
             alpha = pillow_image.getchannel('A')
             pillow_image = pillow_image.convert(self.mode[:-1])
             png_data = self._get_png_data(pillow_image)
             # Save alpha channel as mask
             alpha_data = self._get_png_data(alpha)
-            stream = self.cache_image_data(alpha_data, slot='streamalpha')
+            stream = self.cache_image_data(
+                alpha_data, slot=f'streamalpha-{width}x{height}')
             extra['SMask'] = pydyf.Stream([stream], extra={
                 'Filter': '/FlateDecode',
                 'Type': '/XObject',
@@ -204,9 +208,10 @@ class RasterImage:
             })
         else:
             png_data = self._get_png_data(
-                Image.open(io.BytesIO(self.image_data.data)))
+                Image.open(io.BytesIO(image_data.data)))
 
-        return pydyf.Stream([self.cache_image_data(png_data, slot='stream')], extra)
+        stream = self.cache_image_data(png_data, slot=f'stream-{width}x{height}')
+        return pydyf.Stream([stream], extra)
 
     @staticmethod
     def _get_png_data(pillow_image):
